@@ -53,6 +53,7 @@ def run(ctx):
     singular.check_segments(ctx)
     c11.adjacency(ctx)
     spaces.normal_multipliers(ctx)
+    spaces.localised_inherit(ctx)
     spaces.rwg_sign_rule(ctx)
     geometry(ctx)
 
